@@ -60,6 +60,16 @@ Theorem C01_targets_never_change : forall ops ops' h a',
   exists a, get_ann (run ops) h = Some a /\ same_ann a a'.
 Proof. exact targets_never_change. Qed.
 
+(* the counting shortcuts of the API (annotations_len of a text selection or a data item) read the
+   length of an index entry: it is the number of live annotations that refer to the item *)
+Theorem C01_counting_shortcuts : forall ops r t d x,
+  length (tget (trm (run ops)) r t) = length (s_ts_anns (run ops) r t)
+  /\ length (tget (ddam (run ops)) d x) = length (s_data_anns (run ops) d x).
+Proof.
+  intros ops r t d x. pose proof (C01_index_invariant ops) as HI.
+  rewrite (I_trm noex _ HI), (I_ddam noex _ HI) by reflexivity. split; reflexivity.
+Qed.
+
 (* The comparator with which the members of Multi/Composite selectors are sorted before they are
    compressed (sort_unstable_by needs a consistent total order, for every mix of the nine selector
    kinds - the pinned code's comparator was not: fix f7d544a) is the lexicographic order of a key:
